@@ -240,4 +240,107 @@ Proof.
     + apply (Hwf' (val_v v) (Mu s)).
   - destruct v as [q|w|mm|]; try (split; assumption). split; [apply Hgen|apply Hwf'].
 Qed.
+
+(* ---------------------------------------------------------------- alpha, reconstruction, precisions *)
+Lemma vnth_map (f : Qc -> Qc) l i : (i < length l)%nat -> vnth (map f l) i = f (vnth l i).
+Proof.
+  intros Hi. unfold vnth. rewrite (nth_indep _ 0 (f 0)) by (now rewrite map_length). apply map_nth.
+Qed.
+
+Lemma cache_alpha s : ValidData d -> Inv s -> Inv (alpha_step d s).
+Proof.
+  intros Hv [Hc Hwf]. unfold alpha_step. destruct (nobs d) as [|n0] eqn:En; [split; assumption|].
+  split; [|exact Hwf]. unfold cache_ok, reconstruct. cbn [Mu set_Mu]. rewrite En. apply list_eq_tab.
+  - rewrite map_length, (cache_len s Hc). exact En.
+  - intros i Hi. rewrite <- En in Hi. rewrite vnth_map by (now rewrite (cache_len s Hc)).
+    rewrite (cache_nth g d s i Hv Hc Hi), (mu_at_spec g d _ i Hv). unfold spec_mean.
+    cbn [W0 W V0 V1 V2 alpha set_Mu set_alpha]. ring.
+Qed.
+
+Lemma cache_reconstruct s : Inv s -> Inv (reconstruct_Mu g d false s).
+Proof.
+  intros [Hc Hwf]. unfold reconstruct_Mu. destruct (nobs d); [split; assumption|]. split; [reflexivity|exact Hwf].
+Qed.
+
+Variable orc : oracle.
+
+Lemma cache_prec_W0 s : Inv s -> all_rets Inv (prog_prec_W0 g d orc s).
+Proof. intros [Hc Hwf]. unfold prog_prec_W0. cbn [all_rets]. intros v. split; [exact Hc|exact Hwf]. Qed.
+Lemma cache_prec_obs s : Inv s -> all_rets Inv (prog_prec_obs g d orc s).
+Proof. intros [Hc Hwf]. unfold prog_prec_obs. destruct (nobs d); cbn [all_rets]; intros v; (split; [exact Hc|exact Hwf]). Qed.
+Lemma cache_prec_V0 s : Inv s -> all_rets Inv (prog_prec_V0 g d orc s).
+Proof. intros [Hc Hwf]. unfold prog_prec_V0. cbn [all_rets]. intros v1 v2 v3 v4. split; [exact Hc|exact Hwf]. Qed.
+Lemma cache_prec_V2 s : Inv s -> all_rets Inv (prog_prec_V2 g d orc s).
+Proof. intros [Hc Hwf]. unfold prog_prec_V2, prog_prec_Vk. cbn [all_rets]. intros v1 v2 v3 v4. split; [exact Hc|exact Hwf]. Qed.
+Lemma cache_prec_V1 s : Inv s -> all_rets Inv (prog_prec_V1 g d orc s).
+Proof. intros [Hc Hwf]. unfold prog_prec_V1, prog_prec_Vk. cbn [all_rets]. intros v1 v2 v3 v4. split; [exact Hc|exact Hwf]. Qed.
+Lemma cache_prog_gam ds : forall s, Inv s -> all_rets Inv (prog_gam g d orc ds s).
+Proof.
+  induction ds as [|dd r IH]; intros s [Hc Hwf]; cbn [prog_gam all_rets].
+  - split; [exact Hc|exact Hwf].
+  - intros v. apply IH. split; [exact Hc|exact Hwf].
+Qed.
+
+Lemma step_inv b s : ValidData d -> NoSelfCombo d -> Inv s -> all_rets Inv (step_prog g d orc b s).
+Proof.
+  intros Hv Hns Hi. destruct b; cbn [step_prog].
+  - cbn [all_rets]. now apply cache_reconstruct.
+  - cbn [all_rets]. now apply cache_alpha.
+  - apply all_rets_seq_blocks; [|exact Hi]. intros b Hb s0 v Hs0. apply in_map_iff in Hb as (c & <- & Hc). apply in_seq in Hc.
+    apply cache_block_W0; (assumption || lia).
+  - apply all_rets_seq_blocks; [|exact Hi]. intros b Hb s0 v Hs0. apply in_map_iff in Hb as (c & <- & Hc). apply in_seq in Hc.
+    apply cache_block_V0; (assumption || lia).
+  - apply all_rets_seq_blocks; [|exact Hi]. intros b Hb s0 v Hs0. apply in_map_iff in Hb as (c & <- & Hc). apply in_seq in Hc.
+    apply cache_block_W; (assumption || lia).
+  - apply all_rets_seq_blocks; [|exact Hi]. intros b Hb s0 v Hs0. apply in_map_iff in Hb as (c & <- & Hc). apply in_seq in Hc.
+    apply cache_block_V2; (assumption || lia).
+  - apply all_rets_seq_blocks; [|exact Hi]. intros b Hb s0 v Hs0. apply in_map_iff in Hb as (c & <- & Hc). apply in_seq in Hc.
+    apply cache_block_V1; (assumption || lia).
+  - now apply cache_prec_W0.
+  - now apply cache_prec_V0.
+  - now apply cache_prec_obs.
+  - now apply cache_prec_V2.
+  - now apply cache_prec_V1.
+  - now apply cache_prog_gam.
+Qed.
+
+(* after any sequence of step functions - in particular after every prefix of one sweep and
+   after any number of sweeps - the cache is exact, whatever the draws returned *)
+Theorem cache_invariant bs s :
+  ValidData d -> NoSelfCombo d -> Inv s -> all_rets Inv (run_blocks g d orc bs s).
+Proof.
+  intros Hv Hns Hi. unfold run_blocks.
+  assert (H : forall p, all_rets Inv p -> all_rets Inv (fold_left (fun p b => bind p (step_prog g d orc b)) bs p)).
+  { induction bs as [|b r IH]; intros p Hp; cbn [fold_left]; [exact Hp|].
+    apply IH. apply all_rets_bind. eapply all_rets_weaken; [|exact Hp]. intros s0 Hs0. now apply step_inv. }
+  apply H. exact Hi.
+Qed.
+
+Corollary cache_invariant_steps k s :
+  ValidData d -> NoSelfCombo d -> Inv s -> all_rets Inv (run_blocks g d orc (concat (repeat step_order k)) s).
+Proof. apply cache_invariant. Qed.
 End Cache.
+
+(* ---------------------------------------------------------------- without NoSelfCombo the invariant fails *)
+Definition wit_cfg : cfg := {| c_D := 1; c_ndd := 1; c_ncl := 1; c_a0 := 1; c_b0 := 1; c_minMu := - qofZ 10; c_maxMu := qofZ 10 |}.
+(* one observation: sample 0 treated with treatment 0 in both columns *)
+Definition wit_data : data := {| d_y := [0]; d_cl := [0%Z]; d_dd1 := [0%Z]; d_dd2 := [0%Z] |}.
+Definition wit_state : st :=
+  {| W := [[0]]; W0 := [0]; V2 := [[0]]; V1 := [[0]]; V0 := [0]; alpha := 0; prec := 1; tau := [1]; tau0 := 1;
+     phi2 := [[1]]; phi1 := [[1]]; phi0 := [1]; eta2 := [1]; eta1 := [1]; eta0 := 1; gam := [1]; Mu := [0] |}.
+
+Lemma wit_valid : ValidData wit_data.
+Proof.
+  unfold ValidData, wit_data, nobs, znth. cbn [d_y d_cl d_dd1 d_dd2 length].
+  repeat split; try reflexivity; intros [|[|i]]; cbn [nth]; lia.
+Qed.
+
+Theorem cache_refuted :
+  exists g d s v, ValidData d /\ Inv g d s /\ ~ NoSelfCombo d /\ ~ cache_ok g d (snd (block_V0 d s 0) v).
+Proof.
+  exists wit_cfg, wit_data, wit_state, (VQ 1). split; [exact wit_valid|]. split; [|split].
+  - split; [|repeat split]. unfold cache_ok. apply (nth_ext _ _ 0 0); [reflexivity|].
+    intros [|i] Hi; [|cbn in Hi; lia]. apply Qc_is_canon. vm_compute. reflexivity.
+  - intros H. destruct (H 0%nat) as [H0|H0]; [cbn; lia|discriminate H0|apply H0; reflexivity].
+  - unfold cache_ok. intros H. apply (f_equal (fun l => this (vnth l 0))) in H. vm_compute in H. discriminate H.
+Qed.
